@@ -16,7 +16,8 @@ type Fault struct {
 	Sticky bool // with At>0: fire at every matching request from At on
 	// Action: "status:<code>[:retry-after]", "reset", "cut:<n>" (only for GETs with a body:
 	// apply normally but drop the connection after n body bytes), "stall" (block until the
-	// client goes away), "delay:<ms>", "call" (run Call, then proceed normally).
+	// client goes away), "delay:<ms>", "call" (run Call, then proceed normally), "midstall" (a GET sends headers and half its body,
+	// runs Call and then stalls until the client goes away).
 	Action string
 	Call   func(ev *Event)
 	Header http.Header
@@ -126,6 +127,36 @@ func (p *Plan) intercept(h *Host, ev *Event, w http.ResponseWriter, r *http.Requ
 			fire.Call(ev)
 		}
 		return false
+	case "midstall":
+		// a successful GET sends its headers and half of the body, runs Call, and then sends nothing more until
+		// the client goes away (other requests: like "stallcall")
+		h.W.mu.Lock()
+		resp := h.apply(ev, r, ev.Body)
+		h.W.mu.Unlock()
+		ev.Status = resp.status
+		wait := func() {
+			if fire.Call != nil {
+				fire.Call(ev)
+			}
+			select {
+			case <-r.Context().Done():
+			case <-time.After(30 * time.Second):
+			}
+		}
+		if resp.status >= 200 && resp.status < 300 && r.Method == "GET" && len(resp.body) > 1 {
+			resp.cut = len(resp.body) / 2
+			resp.hold = wait
+			writeResp(w, resp)
+			return true
+		}
+		if r.Method == "GET" || r.Method == "HEAD" {
+			ev.Status = -2
+			wait()
+			DropConn(w)
+			return true
+		}
+		writeResp(w, resp)
+		return true
 	case "cut":
 		n, _ := strconv.Atoi(arg)
 		h.W.mu.Lock()
